@@ -154,12 +154,19 @@ def lit(rng, t):
         if base[0] == "N":
             return ["none"]
         vals, base = _nested(rng, t)
+        shape = []
+        u = t
+        while u[0] == "V":
+            shape.append(u[1])
+            u = u[2]
+        # an empty nested list loses the trailing dimensions: state the shape
+        extra = [shape] if 0 in shape and len(shape) > 1 else []
         if base[0] == "F":
-            return ["ca", vals]
+            return ["ca", vals] + extra
         if base[0] == "B":
-            return ["cbv", vals]
+            return ["cbv", vals] + extra
         if base[0] == "I":
-            return ["iclip", ["ca", vals], base[1]]
+            return ["iclip", ["ca", vals] + extra, base[1]]
     raise ValueError("no literal for %r" % (t,))
 
 
